@@ -268,13 +268,24 @@ Verdict prop(Tape& t, Run& run) {
 void deterministic(Run& run, const std::function<void(const std::vector<uint8_t>&)>& feed) {
 	auto& cp = corpus(run.args.corpus);
 	const bool thorough = run.args.tier == "thorough";
+	uint64_t gidx = 0;
+	run.feedAll = true; // sharded here, by fault
 	for (size_t i = 0; i < cp.size(); i++) {
-		if (!thorough && cp[i].bytes.size() > 16 * 1024)
-			continue;
 		Target tg = prepare(cp[i].bytes);
 		if (!tg.ok)
 			continue;
-		for (size_t f = 0; f < tg.refs.size(); f++)
+		const bool all = thorough || cp[i].bytes.size() <= 16 * 1024;
+		// larger files in the quick tier: the first two instances of every (owner type, field ordinal)
+		std::map<std::pair<std::string, uint32_t>, int> seen;
+		struct One {
+			size_t f;
+			uint8_t kind;
+			uint16_t pick;
+		};
+		std::vector<One> mine;
+		for (size_t f = 0; f < tg.refs.size(); f++) {
+			if (!all && seen[{tg.types[tg.refs[f].owner], tg.refs[f].ordinal}]++ >= 2)
+				continue;
 			for (uint8_t kind = 0; kind < 7; kind++) {
 				// in-range faults: a few picks, incl. block 0 and the last block
 				std::vector<uint16_t> picks = {0};
@@ -283,9 +294,47 @@ void deterministic(Run& run, const std::function<void(const std::vector<uint8_t>
 				if (kind == 5)
 					picks = {0, 1};
 				for (auto pick : picks)
-					feed({1, static_cast<uint8_t>(i), 0 /*one fault*/, static_cast<uint8_t>(f & 255), static_cast<uint8_t>(f >> 8), kind, static_cast<uint8_t>(pick & 255), static_cast<uint8_t>(pick >> 8)});
+					if (static_cast<int>(gidx++ % static_cast<uint64_t>(run.args.nshards)) == run.args.shard)
+						mine.push_back({f, kind, pick});
 			}
+		}
+		auto tapeOf = [&](const One& o) {
+			return std::vector<uint8_t>{1, static_cast<uint8_t>(i), 0 /*one fault*/, static_cast<uint8_t>(o.f & 255), static_cast<uint8_t>(o.f >> 8), o.kind, static_cast<uint8_t>(o.pick & 255),
+										static_cast<uint8_t>(o.pick >> 8)};
+		};
+		auto faultyOf = [&](const One& o) {
+			std::string faulty = tg.bytes;
+			uint32_t v = faultValue(tg, tg.refs[o.f], o.kind, o.pick);
+			memcpy(&faulty[tg.refs[o.f].fileOffset], &v, 4);
+			return faulty;
+		};
+		// 32 faults to a forked child; one that does not complete is decided on its own (feed -> prop -> runFaults)
+		const uint64_t fileHash = fnv1a(cp[i].bytes);
+		size_t at = 0;
+		while (at < mine.size()) {
+			size_t n = std::min<size_t>(32, mine.size() - at);
+			size_t firstBad = runBatchIsolated(n, [&](size_t k) { return childBody(faultyOf(mine[at + k]), true); }, 20);
+			for (size_t k = 0; k < firstBad && k < n; k++) {
+				const One& o = mine[at + k];
+				const RefField& rf = tg.refs[o.f];
+				uint32_t v = faultValue(tg, rf, o.kind, o.pick);
+				run.evaluations++;
+				run.bulkEnumerated++;
+				run.cls(std::string("fault:") + kindNames[o.kind]);
+				run.cls("faults:1");
+				run.cls("kind:corpus(batched)");
+				if (rf.value != 0xFFFFFFFFu || v < tg.numBlocks)
+					run.nontriv(hash_mix(hash_mix(fileHash, rf.fileOffset), v));
+			}
+			if (firstBad < n) {
+				feed(tapeOf(mine[at + firstBad]));
+				at += firstBad + 1;
+			}
+			else
+				at += n;
+		}
 	}
+	run.feedAll = false;
 }
 
 } // namespace
@@ -300,7 +349,8 @@ int main(int argc, char** argv) {
 	h.thoroughCases = 400000;
 	h.rule = "fault = overwrite of 1-3 reference fields (located exactly through hook H3) of a valid file by empty / count / "
 			 "count+1 / 0x7FFFFFFE / self / an ancestor / an arbitrary in-range index. Enumerated: every reference field x "
-			 "every fault kind of the sample files (quick: files < 16 KB; thorough: all 26); random: 1-3 simultaneous faults "
+			 "every fault kind of the sample files (quick: every field of files <= 16 KB and the first two instances of "
+			 "every (block type, field ordinal) of the larger ones; thorough: every field of all 26), 32 faults to a forked child; random: 1-3 simultaneous faults "
 			 "on samples and synthesised files. Each fault runs load + query battery + copy + default save + reload in a "
 			 "forked child. Non-trivial = the overwritten field was non-empty or the new target exists; distinct = "
 			 "hash(file, offsets, values).";
